@@ -52,6 +52,21 @@ HAND = [
                           {"type": "object", "required": ["B"], "properties": {"B": {"type": "integer", "minimum": 3}}, "additionalProperties": False}]},
      "Name": {"type": "string", "maxLength": 8}, "Colour": {"type": "string", "enum": ["red", "green"]},
      "Plain": {"type": "string"}, "Count": {"type": "integer", "minimum": 3}}}),
+ # a member inherited through allOf and declared again (to make it required, to document it): the two declarations refer to the
+ # same definition and differ in annotations at most; the definitions are of kinds a merge does not reproduce literally
+ ("redeclare", {"title": "Root", "type": "object", "properties": {"d": _ref("Derived"), "e": _ref("Derived2"), "f": _ref("Derived3")},
+   "definitions": {
+     "Kind": {"type": "string", "const": "fixed"},
+     "Labels": {"type": "object", "patternProperties": {"^x-": {"type": "string"}}, "additionalProperties": False},
+     "Codes": {"type": "object", "additionalProperties": {"type": "integer"}, "propertyNames": {"type": "string", "maxLength": 4}},
+     "Shade": {"type": "string", "enum": ["light", "dark"]},
+     "Base": {"type": "object", "properties": {"kind": _ref("Kind"), "labels": _ref("Labels"), "codes": _ref("Codes"), "shade": _ref("Shade"), "name": {"type": "string"}}},
+     "Derived": {"allOf": [_ref("Base"), {"type": "object", "required": ["kind", "shade"], "properties": {
+         "kind": {"description": "the kind; required here", "$ref": "#/definitions/Kind"}, "shade": dict(_ref("Shade"), description="required here")}}]},
+     "Derived2": {"allOf": [_ref("Base"), {"type": "object", "required": ["labels"], "properties": {
+         "labels": {"title": "Labels (required)", "$ref": "#/definitions/Labels"}, "codes": _ref("Codes")}}]},
+     "Derived3": {"allOf": [{"type": "object", "properties": {"codes": dict(_ref("Codes"), description="left")}},
+                            {"type": "object", "properties": {"codes": dict(_ref("Codes"), description="right"), "kind": _ref("Kind")}}]}}}),
 ]
 
 # ------------------------------------------------------------------------------------------ small helpers
@@ -220,7 +235,8 @@ def draw_plans(rng, tag, doc, base, n, thorough):
         compilable = rng.random() < 0.6
         st = orth(compilable)
         if kind == "replace" and rep_c:
-            dn, tn = rng.choice(rep_c)
+            # hand-written documents: every definition in turn; otherwise a random one
+            dn, tn = rep_c[(k // 4) % len(rep_c)] if tag.startswith("hand:") else rng.choice(rep_c)
             path, impls, comp = rng.choice([r for r in REPLACEMENTS if r[2] or not compilable])
             st["replace"] = [{"name": tn, "replace": path, "impls": impls}]
             plans.append(Plan("%s/replace:%s" % (tag, dn), doc, st, "replace", {"def": dn, "name": tn, "path": path, "impls": impls}, compilable and comp))
@@ -558,7 +574,7 @@ def run(ctx):
     for (tag, doc), b in zip(docs, bases):
         if not usable(b): continue
         bi = len(plans); plans.append(Plan(tag + "/default", doc, {}, None)); base_of[bi] = bi
-        nplans = (10 if thorough else 5) if not tag.startswith("hand:") else (24 if thorough else 12)
+        nplans = (10 if thorough else 5) if not tag.startswith("hand:") else max(24 if thorough else 12, 4 * len(doc.get("definitions") or {}))
         for p in draw_plans(ctx.rng, tag, doc, b, nplans, thorough):
             base_of[len(plans)] = bi; plans.append(p)
     raw = m2.tvh_ir([p.request for p in plans])
